@@ -477,6 +477,16 @@ func c07ConcSetup(prm c07ConcParams) func(c *fw.Ctx, name string) explore.Setup 
 			w.GoHarness("main", true, func() {
 				a := c07Open(st, k, 'A', 1)
 				a.p.SplitRead = true
+				if prm.Closer == "stalledEcho+CloseNow" {
+					// the peer's Close frame sits between the two fragments of A's message and the
+					// peer does not read: the echo parks in the transport until CloseNow ends it
+					fs, _ := frame.ParseAll(a.p.In)
+					cut := fs[1].Offset
+					in := append([]byte(nil), a.p.In[:cut]...)
+					in = append(in, peerClose(k, 1001, "")...)
+					a.p.In = append(in, a.p.In[cut:]...)
+					a.p.Window = 1
+				}
 				bg := vctx.Background()
 				ctx, cancel := vctx.WithCancel(bg)
 				w.GoHarness("readerA", true, func() {
@@ -497,7 +507,7 @@ func c07ConcSetup(prm c07ConcParams) func(c *fw.Ctx, name string) explore.Setup 
 				})
 				w.GoHarness("closerA", true, func() {
 					switch prm.Closer {
-					case "CloseNow":
+					case "CloseNow", "stalledEcho+CloseNow":
 						a.c.CloseNow()
 					case "peerClose":
 						a.p.Send(peerClose(k, 1001, ""))
@@ -843,7 +853,10 @@ func c07Scenarios(tier string) []scenario {
 				scs = append(scs, scenario{Name: prm.name(), Cfg: explore.Config{P: 0, Horizon: 60e9}, Setup: c07Setup(prm), Group: fmt.Sprintf("prog-mixed/%s/%d", k.String(), i%4)})
 			}
 		}
-		for _, cl := range []string{"CloseNow", "peerClose", "ctx"} {
+		for _, cl := range []string{"CloseNow", "peerClose", "ctx", "stalledEcho+CloseNow"} {
+			if cl == "stalledEcho+CloseNow" && !(k.Flate && (k.CNCT || tier == "thorough")) {
+				continue // the reader has to be inside the message's decompressor when the Close frame arrives
+			}
 			prm := c07ConcParams{K: k, Closer: cl}
 			pk := pc
 			if k.Flate && !k.CNCT && pk.P > 1 {
